@@ -23,7 +23,7 @@ PROP = dict(
           "instances equals the summed lengths of the distinct cells after every op and no Elem is assigned/copied/destroyed while "
           "not constructed; at the end the handles are dropped one by one, live count 0 and the allocated bytes return to the "
           "pre-case value; ASan decides out-of-bounds / use-after-free / double free. "
-          "Non-trivial: a history in which at least one of these happened: content mutation through a handle while another handle "
+          "Added in seeding round 5: (giant) one scripted history on Array<double>/Queue<double> of 270,000,000 elements (byte counts >= 2^31) with a closed-form oracle at the ends and 2000 sampled positions. Non-trivial: a history in which at least one of these happened: content mutation through a handle while another handle "
           "aliases the array; growth across a capacity boundary; an op whose argument refers into the receiver; a remove / shrink / "
           "clear on a counted element type. Distinct = distinct FNV-1a hash of (element type, serialised history). "
           "Classes growfrom.<cap>.<path>.<type> count every capacity boundary crossed per growth path."),
